@@ -216,6 +216,9 @@ def bases():
     B["rpcparam"] = [n(J), n("URL /api/{tenant}/rpc", n("Protocol json-rpc-2.0"), n("Method m", n("Params", body="{}"))),
                      n("URL /shops/{shop}"), n("GET /z", n("200 any"))]
     B["owntags"] = [n(J), n("TAG @g"), n("TAG @h"), n("URL /u", n("Tags @g"), n("GET", n("Tags @h"), n("200 any")), n("DELETE", n("Tags @h"), n("204 any")))]
+    B["nestedpaste"] = [n(J), n("MACRO @m", n("404 any"), paren=True), n("MACRO @outer", n("PASTE @m"), paren=True),
+                        n("MACRO @never", n("200 any"), n("PASTE @m"), paren=True), n("MACRO @deep", n("PASTE @never"), paren=True),
+                        n("GET /m", n("200 any"), n("PASTE @outer"))]
     B["urltags"] = [n(J), n("TAG @g"), n("URL /u", n("Tags @g"), n("GET", n("200 any")), n("DELETE", n("Tags @g"), n("204 empty")))]
     B["all"] = [n(J), n("INFO", n('Title "T"'), n("Version 1")), n("SERVER @s", n('BaseUrl "http://x"')), n("TAG @g"),
                 n("TYPE @t", body="{}"), n("ENUM @e", body="[1]"), n("MACRO @m", n("404 any"), paren=True),
@@ -348,6 +351,19 @@ def f_missing_param(tree):
                 # the parameter is there, but says nothing: written as an empty quoted string
                 cq = Node(nd.kw + ' ""', nd.kids, nd.body, nd.paren)
                 yield "missing-" + nd.kind.lower(), "at-empty-quoted", replace(tree, p, cq), cq.uid, cq.uid, None
+
+
+def eof_missing_name_documents():
+    """(files, label): the directive whose required parameter is missing is the LAST thing of a file, with no line end after
+    the keyword - in the main file and in an included one"""
+    out = []
+    for kw in ("ENUM", "TYPE", "MACRO", "PASTE", "TAG", "SERVER", "Tags", "Method", "Protocol", "Title", "Version", "BaseUrl"):
+        ctx = {"Tags": "GET /a\n  200 any\n  ", "Method": "URL /r\n  Protocol json-rpc-2.0\n  ", "Protocol": "URL /r\n  ", "Title": "INFO\n  ", "Version": "INFO\n  Title \"t\"\n  ",
+               "BaseUrl": "SERVER @s\n  ", "PASTE": "GET /a\n  200 any\n  "}.get(kw, "GET /a\n  200 any\n")
+        out.append(([("main.jst", J + "\n" + ctx + kw)], "missing-%s-at-end-of-file" % kw.lower()))
+        if kw in ("ENUM", "TYPE", "MACRO", "TAG", "SERVER"):
+            out.append(([("main.jst", J + "\nGET /a\n  200 any\nINCLUDE last.jst\n"), ("last.jst", kw)], "missing-%s-at-end-of-included-file" % kw.lower()))
+    return out
 
 
 def first_segment(path):
@@ -524,6 +540,19 @@ def run(res, tier, seed, replay):
             where = "accepted" if st != "err" else "diagnostic %r at %s:%d, expected inside %s" % (msg, loc[0], loc[1], spans.get(off))
             spec_bad.append(("fault %s (%s, %s) injected into base %r: %s; document:\n%s" % (
                 kind, pos, mode, name, where, "\n".join("--- %s\n%s" % (a, b.decode()) for a, b in files)[:900]), rp))
+    if not replay:
+        # a required name missing from the directive that ends its file without a line end
+        eofd = eof_missing_name_documents()
+        eo = C.run_sharded("harness", "fn", [P.run_line("-", [(a.encode(), b.encode()) for a, b in fl]) for fl, _ in eofd])
+        res.count(len(eofd))
+        for (fl, label), o in zip(eofd, eo):
+            st_, d_ = P.parse(o)
+            if st_ != "err":
+                res.violation("fault %s: accepted; document:\n%s" % (label, "\n".join("--- %s\n%s" % (a, b) for a, b in fl)),
+                              {"project": [(C.hx(a.encode()), C.hx(b.encode())) for a, b in fl], "kind": label})
+                return
+            res.nontrivial(("eof-missing", label))
+        dist["missing-name-at-end-of-file"] = {"cases": len(eofd)}
     res.notes["input_distribution"] = {"bases": len(B), "cases": len(cases), "by_fault_and_mode": dist}
     for c in (cases[len(cases) // 7], cases[len(cases) // 2], cases[-5]) if len(cases) > 10 else cases[:1]:
         res.sample({"base": c[0], "fault": c[1], "pos": c[2], "mode": c[3], "document": c[4][0][1].decode()[:300]})
